@@ -170,12 +170,13 @@ type TableSnap struct {
 	Pfx   map[string]gen.P    // key -> prefix
 	Paths map[string][][]byte // key -> deep bytes of each stored path, in stored order
 	Desc  map[string][]string // key -> short human description of each path (for violation details)
+	Attrs map[string][]Attr   // key -> projection of each path
 	NByte int
 }
 
 // Snap takes a deep snapshot of a dump.
 func Snap(routes []*route.Route, withPathID bool) *TableSnap {
-	s := &TableSnap{Pfx: map[string]gen.P{}, Paths: map[string][][]byte{}, Desc: map[string][]string{}}
+	s := &TableSnap{Pfx: map[string]gen.P{}, Paths: map[string][][]byte{}, Desc: map[string][]string{}, Attrs: map[string][]Attr{}}
 	for _, r := range routes {
 		if r == nil {
 			continue
@@ -190,6 +191,7 @@ func Snap(routes []*route.Route, withPathID bool) *TableSnap {
 			b := PathBytes(pa, withPathID)
 			s.Paths[k] = append(s.Paths[k], b)
 			s.Desc[k] = append(s.Desc[k], describe(pa))
+			s.Attrs[k] = append(s.Attrs[k], safeAttr(pa))
 			s.NByte += len(b)
 		}
 		if _, ok := s.Paths[k]; !ok {
@@ -198,6 +200,11 @@ func Snap(routes []*route.Route, withPathID bool) *TableSnap {
 	}
 	sort.Strings(s.Keys)
 	return s
+}
+
+func safeAttr(p *route.Path) (a Attr) {
+	defer func() { recover() }()
+	return FromPath(p)
 }
 
 func describe(p *route.Path) (s string) {
